@@ -4,7 +4,7 @@ import json
 import subprocess
 
 from ..core import PY, MachineryFailure, Scratch, T, run_driver
-from .common import run_model, validate
+from .common import run_model, validate, run_harvest
 
 FINISH = dict(rule="R1 MC_Split Inv_NoCrash (the splitter model is total; negative configuration with the repaired empty-bracket "
                    "deviation must fail) + Writer.tla (every single allocation-failure point: in bounds, no leak, no double free, "
@@ -71,3 +71,4 @@ def run(out, sc, tier, seed):
             for pth in sw2:
                 (sc.work / pth.name).write_text(pth.read_text())
             validate(out, sc, "TraceUrl", "C19", [sc.work / pth.name for pth in sw2], "alloc-sweeps-asan")
+    run_harvest(out, sc, "C19")
